@@ -221,7 +221,8 @@ EXTRA_TEXT = {
            "descriptions incl. the appended default prose, types, typed defaults, header, return entry), with 16 counterexamples showing which domain clauses are essential; "
            "the prediction is compared with what the REAL parse(emit ir) returns on every generated in-domain interface (the driver decides membership). "
            "Properties/C01Google.lean: the same for the GOOGLE style over the Google scan/parse model (Model/DocGN.lean) - google_roundtrip_full returns exactly expIRG ir, "
-           "which includes the defaults that the require_default latch gives to parameters after a defaulted one - with 8 witnesses, tied to the real Google parse(emit ir) the same way.",
+           "which includes the defaults that the require_default latch gives to parameters after a defaulted one - with 8 witnesses, tied to the real Google parse(emit ir) the same way; Properties/C01Numpy.lean: the same for the NumPy style with types emitted (numpy_roundtrip_full), "
+           "tied the same way; lossy behaviours (names lost without types, return entries, the latch) are theorems about the model, replayed on the real code.",
     "C03": "Added later (Properties/C03Iface.lean): for the four code formats class/pydantic/function/argparse the single-hop premise is PROVED from the C02 theorems over the "
            "emitter/parser model (single), hence chain_iface / chains_commute_iface for chains of any length; the closure of the region under hops remains a hypothesis.",
     "C08": "Added later (Properties/C08Whole.lean): on C01Whole.InDomain the ReST hop emit->parse of the model is at its fixpoint after ONE round for every number of parameters "
@@ -244,8 +245,8 @@ EXTRA_TEXT = {
 }
 NOTE_OVERRIDE = {
     "C01": "Partial: the ReST whole-docstring theorem is about the model, which omits the prose type inference parse_adhoc_doc_for_typ (descriptions on which the real function "
-           "answers are excluded from the tie, checked per case); string/None/code defaults are outside its domain; the Google theorem excludes return entries and non-int/bool defaults; the NumPy round trip is emitter "
-           "correspondence + oracle only. 26 known findings. Assumed: textwrap.fill, literal_eval, float/repr. Trusted: Lean kernel + 3 axioms, the harness.",
+           "answers are excluded from the tie, checked per case); string/None/code defaults are outside its domain; the Google and NumPy theorems exclude return entries and non-int/bool defaults, the NumPy one also emit_types=False (where the unchanged "
+           "code loses the names). 26 known findings. Assumed: textwrap.fill, literal_eval, float/repr. Trusted: Lean kernel + 3 axioms, the harness.",
     "C03": "Partial: for docstring / JSON-schema / SQLAlchemy hops the premises are observed on the real pipeline only; for the code formats the closure hypothesis (what the "
            "docstring layer answers for the next docstring) is not proved. 13 known findings record where the unchanged code breaks a premise. Trusted: Lean kernel + 3 axioms, "
            "the harness; the C02 model is tied to the code by the C02 check.",
